@@ -109,9 +109,89 @@ pub fn problem_cfg(rng: &mut Rng) -> g::Cfg {
             c.symbols.extend(["general", "c__infimum__"]);
             c.preds.extend(["p__less__"]);
         }
+        // symbols whose byte order (`symbols.sort_unstable()` of the symbol_order chain) differs from the
+        // case-insensitive order (aB < a_s < aa < ab) and from the natural-number order (a10 < a2)
+        3 | 4 => c.symbols = vec!["aB", "aa", "ab", "a_s", "aZ", "a1", "a10", "a2", "b"],
         _ => {}
     }
     c
+}
+
+/// pools of a WIDE problem: at least 11 predicates, symbols and placeholders (two-digit indices in
+/// `predicate_{i}`, `type_symbol_{i}`, `type_function_constant_{i}`, `symbol_order_{i}`), predicate
+/// arities 3 and 4 (third arm of the `general * .. * general` product)
+pub const WIDE_PREDS: &[(&str, usize)] =
+    &[("p", 1), ("q", 2), ("r", 0), ("s", 1), ("t", 3), ("u", 4), ("v", 3), ("w", 1), ("p1", 1), ("p2", 2), ("p3", 3), ("p4", 4), ("z", 0)];
+pub const WIDE_SYMBOLS: &[&str] = &["a", "b", "c", "d", "aB", "zz", "aa", "ab", "a_s", "aZ", "a1", "a10", "a2", "e"];
+pub const WIDE_FCONSTS: &[&str] = &["n", "m", "k", "c1", "c2"];
+
+/// one closed formula that mentions every predicate, symbol and (name, sort) placeholder of the wide pools
+fn wide_mention(rng: &mut Rng) -> fol::Formula {
+    use fol::{GeneralTerm as G, IntegerTerm as I, SymbolicTerm as S};
+    let mut parts: Vec<fol::Formula> = vec![];
+    let mut sym = 0usize;
+    for (p, n) in WIDE_PREDS {
+        let terms: Vec<G> = (0..*n)
+            .map(|_| {
+                sym += 1;
+                G::SymbolicTerm(S::Symbol(WIDE_SYMBOLS[sym % WIDE_SYMBOLS.len()].to_string()))
+            })
+            .collect();
+        parts.push(fol::Formula::AtomicFormula(fol::AtomicFormula::Atom(fol::Atom { predicate_symbol: p.to_string(), terms })));
+    }
+    for c in WIDE_FCONSTS {
+        for t in [G::FunctionConstant(c.to_string()), G::IntegerTerm(I::FunctionConstant(c.to_string())), G::SymbolicTerm(S::FunctionConstant(c.to_string()))] {
+            parts.push(fol::Formula::AtomicFormula(fol::AtomicFormula::Comparison(fol::Comparison {
+                term: t,
+                guards: vec![fol::Guard { relation: g::relation(rng), term: G::IntegerTerm(I::Numeral(rng.range(0, 3) as isize)) }],
+            })));
+        }
+    }
+    // random order: the declaration order is the order of first occurrence
+    for i in (1..parts.len()).rev() {
+        let j = rng.below(i + 1);
+        parts.swap(i, j);
+    }
+    let conn = if rng.chance(50) { fol::BinaryConnective::Conjunction } else { fol::BinaryConnective::Disjunction };
+    parts.into_iter().reduce(|l, r| fol::Formula::BinaryFormula { connective: conn.clone(), lhs: l.into(), rhs: r.into() }).unwrap()
+}
+
+/// a WIDE raw problem: 10-14 formulas (two-digit `formula_{i}` names), mostly conjectures half of the
+/// time (sub-problem names `{name}_{i}` with i >= 10), all of the wide pools mentioned
+pub fn wide_problem(rng: &mut Rng) -> pb::Problem {
+    let cfg = g::Cfg {
+        var_names: vec!["X", "Y", "N"],
+        symbols: WIDE_SYMBOLS.to_vec(),
+        preds: WIDE_PREDS.iter().map(|(p, _)| *p).collect(),
+        fconsts: WIDE_FCONSTS.to_vec(),
+        max_arity: 4,
+        num_lo: -2,
+        num_hi: 3,
+        extreme_numerals: 0,
+        use_fconsts: true,
+        sorts: vec![fol::Sort::General, fol::Sort::Integer, fol::Sort::Symbol],
+        max_guards: 2,
+        repeated_binders: true,
+    };
+    let n = 10 + rng.below(5);
+    let many_conjectures = rng.chance(50);
+    let at = rng.below(n);
+    let formulas = (0..n)
+        .map(|i| {
+            let f = if i == at {
+                wide_mention(rng)
+            } else {
+                let depth = rng.below(2);
+                fix_arities(formula(rng, &cfg, depth)).universal_closure()
+            };
+            pb::AnnotatedFormula {
+                name: rng.pick(FORMULA_NAMES).to_string(),
+                role: if rng.chance(if many_conjectures { 92 } else { 35 }) { pb::Role::Conjecture } else { pb::Role::Axiom },
+                formula: f,
+            }
+        })
+        .collect();
+    pb::Problem { name: "problem".into(), interpretation: pb::Interpretation::Standard, formulas }
 }
 
 /// closed formula: the universal closure of a random one
@@ -130,8 +210,10 @@ fn fix_arities(f: fol::Formula) -> fol::Formula {
         fol::Formula::AtomicFormula(fol::AtomicFormula::Atom(mut a)) => {
             let want = match a.predicate_symbol.as_str() {
                 "p" | "hp" | "_r" => 1,
-                "q" | "p_i" => 2,
-                "r" | "p__less__" => 0,
+                "q" | "p_i" | "p2" => 2,
+                "r" | "p__less__" | "z" => 0,
+                "t" | "v" | "p3" => 3,
+                "u" | "p4" => 4,
                 _ => 1,
             };
             a.terms.truncate(want);
@@ -148,9 +230,13 @@ pub const FORMULA_NAMES: &[&str] = &["", "ax", "lemma_1", "_hidden", "a", "trans
 
 /// a raw problem (before rename / unique names): 1..5 formulas with roles and names
 pub fn raw_problem(rng: &mut Rng) -> pb::Problem {
+    // 6 %: a wide problem; 1 %: no formula at all (Display prints the preamble only; nothing is emitted)
+    if rng.chance(6) {
+        return wide_problem(rng);
+    }
     let cfg = problem_cfg(rng);
     let same_arity = rng.chance(85);
-    let n = 1 + rng.below(5);
+    let n = if rng.chance(1) { 0 } else { 1 + rng.below(5) };
     let formulas = (0..n)
         .map(|_| {
             let depth = 1 + rng.below(3);
